@@ -50,7 +50,13 @@ bool Semaphore::wait()
 #ifdef _WIN32
   return WaitForSingleObject((HANDLE)handle, INFINITE) == WAIT_OBJECT_0;
 #else
-  return sem_wait((sem_t*)data) != -1;
+  for(;;)
+  {
+    if(sem_wait((sem_t*)data) != -1)
+      return true;
+    if(errno != EINTR) // a signal handler ran: keep waiting (as the timed overload does)
+      return false;
+  }
 #endif
 }
 
